@@ -264,6 +264,20 @@ def parse_san_logs(prefix: str, stderr: str) -> list[dict[str, Any]]:
     return out
 
 
+MAX_RSS_MB = int(os.environ.get("VERIF_C05_MAX_RSS_MB", "6000"))
+
+
+def _rss_mb(pid: int) -> float:
+    try:
+        with open(f"/proc/{pid}/status") as f:
+            for ln in f:
+                if ln.startswith("VmRSS:"):
+                    return int(ln.split()[1]) / 1024.0
+    except (OSError, ValueError, IndexError):
+        pass
+    return 0.0
+
+
 def run_driver(spec: dict[str, Any], cwd: str, out_path: str, mode: str = "plain", timeout: float = 600,
                log_prefix: str | None = None) -> dict[str, Any]:
     """Run the driver in `cwd` (where the modules are importable). mode: plain | asan | valgrind."""
@@ -289,14 +303,33 @@ def run_driver(spec: dict[str, Any], cwd: str, out_path: str, mode: str = "plain
         cmd = ["valgrind", "-q", "--error-exitcode=0", f"--log-file={log_prefix}.vg", "--num-callers=14"] + cmd
     t0 = time.time()
     timed_out = False
+    err_path = out_path + ".stderr"
+    with open(err_path, "wb") as errf:
+        proc = subprocess.Popen(cmd, cwd=cwd, env=env, stdout=subprocess.DEVNULL, stderr=errf, stdin=subprocess.DEVNULL,
+                                start_new_session=True)
+        status: int | None = None
+        while True:
+            try:
+                status = proc.wait(timeout=1.0)
+                break
+            except subprocess.TimeoutExpired:
+                pass
+            # watchdog: wall clock, and resident memory (a generated call that grows without bound must not take the
+            # machine down; RLIMIT_AS cannot be used under ASan).  Either way the call is inconclusive, never a verdict.
+            if time.time() - t0 > timeout or _rss_mb(proc.pid) > MAX_RSS_MB:
+                timed_out = True
+                try:
+                    os.killpg(proc.pid, 9)
+                except OSError:
+                    proc.kill()
+                proc.wait()
+                status = None
+                break
     try:
-        p = subprocess.run(cmd, cwd=cwd, env=env, capture_output=True, text=True, timeout=timeout,
-                           stdin=subprocess.DEVNULL, start_new_session=True, errors="replace")
-        status: int | None = p.returncode
-        stderr = p.stderr[-6000:]
-    except subprocess.TimeoutExpired as e:
-        status, timed_out = None, True
-        stderr = (e.stderr or b"")[-2000:].decode("utf-8", "replace") if isinstance(e.stderr, bytes) else str(e.stderr or "")[-2000:]
+        with open(err_path, errors="replace") as f:
+            stderr = f.read()[-6000:]
+    except OSError:
+        stderr = ""
     records: list[dict[str, Any]] = []
     try:
         with open(out_path, errors="replace") as f:
